@@ -11,7 +11,11 @@
      5. the property block: merge semantics ("last entry wins", 0 = unset)
      6. main theorem read_v2000_render and corollaries
      7. graph_from_molecule of the expected result (composition with the V3000 half)
-     8. a concrete file (non-vacuity)                                                       *)
+     8. a concrete file (non-vacuity)
+
+   Rejected by the reader, hence excluded by the side conditions: a bond line whose two atom numbers
+   are equal (ok_bond) and a negative value on an M  RAD / M  ISO line (ok_item / nonneg_kind: any
+   entry, also one overridden by a later entry; M  CHG values are free).  Example.ex_rejected.  *)
 From Coq Require Import String Lia Arith Permutation.
 Require Import Base Mol Text Molfile V2000 WriterProofs.
 Require Params Elements Writer V3000.
@@ -217,7 +221,8 @@ Definition ok_atom (a : atom2) : Prop :=
   (float_field_ok (a_x a) = true /\ float_field_ok (a_y a) = true /\ float_field_ok (a_z a) = true).
 
 Definition ok_bond (n : nat) (b : bond2) : Prop :=
-  (1 <= fst (fst b) <= Z.of_nat n)%Z /\ (1 <= snd (fst b) <= Z.of_nat n)%Z /\ in3 (snd b).
+  (1 <= fst (fst b) <= Z.of_nat n)%Z /\ (1 <= snd (fst b) <= Z.of_nat n)%Z /\ in3 (snd b) /\
+  fst (fst b) <> snd (fst b).          (* a bond from an atom to itself is rejected by the reader *)
 
 Definition okM2000 (M : mol2) : Prop :=
   length (m_atoms M) <= 999 /\ length (m_bonds M) <= 999 /\
@@ -319,9 +324,14 @@ Definition unrelated (l : text) : Prop :=
 
 Definition ok_entry (n : nat) (e : Z * Z) : Prop := (1 <= fst e <= Z.of_nat n)%Z /\ in3 (snd e).
 
+(* the reader rejects a negative value on an M  RAD / M  ISO line (any entry, also one that a later
+   entry overrides); M  CHG values are free *)
+Definition nonneg_kind (k : pkind) (es : list (Z * Z)) : Prop :=
+  match k with PChg => True | _ => Forall (fun e => (0 <= snd e)%Z) es end.
+
 Definition ok_item (n : nat) (it : pitem) : Prop :=
   match it with
-  | PLine k es rest => length es <= 999 /\ Forall (ok_entry n) es
+  | PLine k es rest => length es <= 999 /\ Forall (ok_entry n) es /\ nonneg_kind k es
   | PText l => unrelated l
   | PAlias l1 l2 => starts_with (t "A  ") l1 || starts_with (t "G  ") l1 = true
   end.
@@ -482,7 +492,7 @@ Section BondLine.
     bslice 1 (bond_line b rest) = zfield 3 false (snd (fst b)) /\
     bslice 2 (bond_line b rest) = zfield 3 false (snd b).
   Proof.
-    intros b rest [H1 [H2 H3]].
+    intros b rest [H1 [H2 [H3 _]]].
     pose proof (zfield3_length false _ (in3_idx n _ Hn H1)) as L1.
     pose proof (zfield3_length false _ (in3_idx n _ Hn H2)) as L2.
     pose proof (zfield3_length false _ H3) as L3.
@@ -510,8 +520,9 @@ Section BondLine.
       cbn [enumerate_from map parse_bond_lines fst snd].
       destruct (bslices b (bf j) Hb1) as [E0 [E1 E2]]. rewrite E0, E1, E2.
       rewrite !to_int_zfield. cbn [bind ok].
-      destruct Hb1 as [H1 [H2 H3]].
+      destruct Hb1 as [H1 [H2 [H3 H4]]].
       rewrite (valid_index_pred n _ H1), (valid_index_pred n _ H2). cbn [negb bind ok].
+      replace (Z.eqb (fst (fst b)) (snd (fst b))) with false by (symmetry; apply Z.eqb_neq; exact H4).
       change (fun a b0 : Z * Z => Z.eqb (fst a) (fst b0) && Z.eqb (snd a) (snd b0)) with bkey_eq.
       rewrite dict_set_fresh.
       + rewrite (IH (N.succ j) _ Hb2).
@@ -627,6 +638,18 @@ Section PropLine.
     rewrite app_assoc.
     apply (assignments_render (phead k ++ zfield 3 false (Z.of_nat (length es))) rest es []);
       [rewrite app_length, phead_length; unfold text in *; fold (Zn (length es)); lia|constructor|exact He].
+  Qed.
+
+  Lemma parse_assignments_nonneg_render : forall k es rest,
+    length es <= 999 -> Forall (ok_entry n) es -> Forall (fun e => (0 <= snd e)%Z) es ->
+    parse_assignments_nonneg n (prop_line k es rest) = ok (map dec es).
+  Proof.
+    intros k es rest Hl He Hnn. unfold parse_assignments_nonneg.
+    rewrite (parse_assignments_render k es rest Hl He). cbn [bind ok].
+    assert (E : existsb (fun p : Z * Z => Z.ltb (snd p) 0) (map dec es) = false).
+    { clear Hl He. induction Hnn as [|e r H0 _ IH]; [reflexivity|]. cbn [map existsb dec snd].
+      rewrite IH, orb_false_r. apply Z.ltb_ge. exact H0. }
+    rewrite E. reflexivity.
   Qed.
 
   (* entry i of a property line, columns as documented: [10+8i,13+8i) and [14+8i,17+8i) *)
@@ -777,11 +800,13 @@ Section Block.
       cbn [orb final_dict fold_left has_chgrad existsb]. rewrite orb_false_r. reflexivity.
     - inversion H as [|? ? Hi Hr]; subst.
       destruct it as [k es rest|l|l1 l2]; cbn [item_lines flat_map].
-      + destruct Hi as [Hl He]. rewrite <- app_assoc. cbn [app attribute_block].
+      + destruct Hi as [Hl [He Hnn]]. rewrite <- app_assoc. cbn [app attribute_block].
         destruct (prop_line_dispatch k es rest) as [D1 [D2 [D3 [D4 D5]]]].
         rewrite D1, D2, D3, D4, D5. cbn [orb].
-        rewrite (parse_assignments_render n Hn k es rest Hl He).
-        destruct k; cbn [pkind_eqb bind ok]; rewrite (IH _ _ Hr);
+        destruct k; cbn [pkind_eqb nonneg_kind] in *;
+          [rewrite (parse_assignments_render n Hn _ es rest Hl He)
+          |rewrite (parse_assignments_nonneg_render n Hn _ es rest Hl He Hnn)..];
+          cbn [bind ok]; rewrite (IH _ _ Hr);
           cbn [final_dict fold_left item_merge has_chgrad existsb is_chgrad orb];
           rewrite ?orb_true_r; reflexivity.
       + destruct Hi as [U1 [U2 [U3 [U4 [U5 U6]]]]]. rewrite <- app_assoc. cbn [app attribute_block].
@@ -1263,7 +1288,7 @@ Qed.
 (* ---- every molecule whose values fit the columns has a rendering: the hypotheses of the main
         theorem are satisfiable for each such M (one entry per property line, codes left 0) ---- *)
 Definition bounded (M : mol2) : Prop :=
-  Forall (fun a => in3 (a_chg a) /\ in3 (a_rad a) /\ in3 (a_mass a)) (m_atoms M).
+  Forall (fun a => in3 (a_chg a) /\ in3 (a_rad a) /\ in3 (a_mass a) /\ (0 <= a_rad a)%Z /\ (0 <= a_mass a)%Z) (m_atoms M).
 
 Definition lines_of (k : pkind) (M : mol2) : list pitem := map (fun e => PLine k [e] []) (stated k M).
 Definition canon (M : mol2) : choices :=
@@ -1301,8 +1326,16 @@ Lemma stated_ok_entry : forall k M e, bounded M -> In e (stated k M) -> ok_entry
 Proof.
   intros k M [b v] HB Hin. apply stated_from_in in Hin. destruct Hin as [j [a [Hj [Hb [Hv _]]]]].
   apply enumerate_from_in_lt in Hj. destruct Hj as [Hlt Ha].
-  unfold bounded in HB. rewrite Forall_forall in HB. destruct (HB a Ha) as [B1 [B2 B3]].
+  unfold bounded in HB. rewrite Forall_forall in HB. destruct (HB a Ha) as [B1 [B2 [B3 _]]].
   split; cbn [fst snd]; [lia|]. subst v. destruct k; assumption.
+Qed.
+
+Lemma stated_nonneg_entry : forall k M e, bounded M -> In e (stated k M) -> nonneg_kind k [e].
+Proof.
+  intros k M [b v] HB Hin. apply stated_from_in in Hin. destruct Hin as [j [a [Hj [Hb [Hv _]]]]].
+  apply enumerate_from_in_lt in Hj. destruct Hj as [Hlt Ha].
+  unfold bounded in HB. rewrite Forall_forall in HB. destruct (HB a Ha) as [_ [_ [_ [B4 B5]]]].
+  subst v. destruct k; cbn [nonneg_kind kval]; [exact I|..]; (constructor; [cbn [snd]; assumption|constructor]).
 Qed.
 
 Lemma has_chgrad_app : forall a b, has_chgrad (a ++ b) = has_chgrad a || has_chgrad b.
@@ -1323,7 +1356,8 @@ Proof.
   split; [reflexivity|]. split; [cbn; lia|]. split; [cbn; lia|]. split; [reflexivity|]. split; [|split; [|split]].
   - cbn [canon c_items]. rewrite !Forall_app. repeat split; unfold lines_of; apply Forall_forall;
       intros it Hit; apply in_map_iff in Hit; destruct Hit as [e [<- He]];
-      (split; [cbn [length]; lia|]); (constructor; [|constructor]); eapply stated_ok_entry; eauto.
+      (split; [cbn [length]; lia|]);
+      (split; [constructor; [|constructor]; eapply stated_ok_entry; eauto|eapply stated_nonneg_entry; eauto]).
   - rewrite raw_canon. apply Permutation_refl.
   - destruct (has_chgrad (c_items (canon M))) eqn:R.
     + rewrite !raw_canon. split; apply Permutation_refl.
@@ -1465,7 +1499,8 @@ Module Example.
   Ltac ok_item_tac :=
     match goal with
     | |- ok_item _ (PLine _ _ _) =>
-        split; [cbn [length]; lia|repeat (apply Forall_cons || apply Forall_nil); split; arith]
+        split; [cbn [length]; lia|split; [repeat (apply Forall_cons || apply Forall_nil); split; arith|
+          cbn [nonneg_kind]; try exact Logic.I; repeat (apply Forall_cons || apply Forall_nil); arith]]
     | |- ok_item _ (PText _) => vm_compute; repeat split; reflexivity
     | |- ok_item _ alias => vm_compute; reflexivity
     end.
@@ -1508,6 +1543,18 @@ Module Example.
     In (t "M  ISO  1   1  77") (render2000 exM exA) /\
     exists a rest, fst (expected2000 exM) = a :: rest /\ r_mass a = Some 13%Z.
   Proof. split; [vm_compute; tauto|]. eexists. eexists. split; [vm_compute; reflexivity|reflexivity]. Qed.
+
+  (* the two new side conditions are needed: a bond 2-2, an M  ISO entry -1 that a later line
+     overrides, an M  RAD entry -1 -- each file is rejected *)
+  Example ex_rejected :
+    read_v2000 (render2000 (mkMol2 (m_atoms exM) [ ((1, 2), 1); ((2, 2), 1) ]%Z) exA) = inl EParser /\
+    read_v2000 (render2000 exM (mkChoices (c_h1 exB) (c_h2 exB) (c_h3 exB) (c_cblank exB) (c_cmid exB) (c_crest exB)
+                                  (c_atom exB) (c_bond exB) (c_alist exB) (c_sc exB) (c_stext exB)
+                                  (PLine PIso [(1, -1)%Z] (t "") :: c_items exB) (c_trailer exB))) = inl EParser /\
+    read_v2000 (render2000 exM (mkChoices (c_h1 exB) (c_h2 exB) (c_h3 exB) (c_cblank exB) (c_cmid exB) (c_crest exB)
+                                  (c_atom exB) (c_bond exB) (c_alist exB) (c_sc exB) (c_stext exB)
+                                  (c_items exB ++ [PLine PRad [(4, -1)%Z] (t "")]) (c_trailer exB))) = inl EParser.
+  Proof. vm_compute. repeat split. Qed.
 
   (* the whole path from the text of the file *)
   Example exA_molfile : read_molfile (join_with [Writer.nl] (render2000 exM exA)) = ok (graph2000 exM).
